@@ -24,9 +24,9 @@ CHECKS = {
         level="exploration",
         rule=("cases = (fragment length 1..=2299 written by the real transport Writer and re-read by the real transport Reader under 3 chunkings x rx buffer sizes) + "
               "(valid segment streams from 1-2 senders mutated by drop/dup/swap/re-address/FIR,FIN flips/sequence skips/interleaving/link-status and empty frames); "
-              "non-trivial = oracle evaluated; distinct = (length class mod 249, length vs rx buffer, chunking) and (role, set of mutation classes, rx size, chunking) tuples"),
+              "+ (session boundaries: one Reader, reset() between two connections, the first of which ends k segments into a fragment and the second of which continues with the remaining segments: nothing of the cut fragment may be delivered); non-trivial = oracle evaluated; distinct = (length class mod 249, length vs rx buffer, chunking) and (role, set of mutation classes, rx size, chunking) tuples"),
         runs=[dict(check="c08", timeout_s=900)],
-        required=["writer_ok", "roundtrip_ok", "oversize_dropped_next_ok", "delivered_explained", "clean_runs_delivered", "tail_after_damage_ok", "writer_resets"],
+        required=["writer_ok", "roundtrip_ok", "oversize_dropped_next_ok", "delivered_explained", "clean_runs_delivered", "tail_after_damage_ok", "writer_resets", "session_boundary_ok"],
         thorough_scale=40.0,
         exhaustive_note="every fragment length 1..=2299 (lengths above 2048 exceed every rx buffer and must be dropped); all 64 starting transport sequence values via the running writer sequence",
         assumptions=HARNESS_TRUST,
